@@ -36,12 +36,50 @@ PARENT = {
 }
 
 
+_EXTRA_PARENTS = {}      # exception classes defined by the analysed program: name -> tuple of base names (set by Analyzer)
+
+
+def program_exception_parents(prog):
+    """{class name: (base names)} for the classes of the package that derive, directly or not, from a known exception class"""
+    cache = prog.__dict__.get("_exc_parents")
+    if cache is not None:
+        return cache
+    import builtins
+    out = {}
+    changed = True
+    while changed:
+        changed = False
+        for ci in prog.classes.values():
+            if ci.name in out or ci.name in PARENT:
+                continue
+            bases = [str(b).split(":")[-1].split(".")[-1] for b in ci.bases]
+            known = [b for b in bases if b in PARENT or b in out or
+                     (isinstance(getattr(builtins, b, None), type) and issubclass(getattr(builtins, b), BaseException))]
+            if known:
+                out[ci.name] = tuple(known)
+                changed = True
+    prog.__dict__["_exc_parents"] = out
+    return out
+
+
 def is_sub(exc, anc):
-    e = exc
-    while e is not None:
+    import builtins
+    seen, todo = set(), [exc]
+    while todo:
+        e = todo.pop()
+        if e is None or e in seen:
+            continue
+        seen.add(e)
         if e == anc:
             return True
-        e = PARENT.get(e)
+        if e in _EXTRA_PARENTS:
+            todo.extend(_EXTRA_PARENTS[e])
+        elif e in PARENT:
+            todo.append(PARENT[e])
+        else:
+            k = getattr(builtins, e, None) if isinstance(e, str) else None
+            if isinstance(k, type) and issubclass(k, BaseException) and k.__mro__[1:2]:
+                todo.append(k.__mro__[1].__name__)       # a builtin exception outside the table (TimeoutError -> OSError)
     return False
 
 
@@ -144,6 +182,8 @@ class Analyzer(object):
     def __init__(self, prog, max_depth=12, total_in=()):
         self.total_in = set(total_in)     # (function fq, callee name) pairs trusted total, justified by the calling rule
         self.prog = prog
+        global _EXTRA_PARENTS
+        _EXTRA_PARENTS = program_exception_parents(prog)
         self.summaries = {}
         self.in_progress = set()
         self.n_ops = 0
@@ -203,6 +243,18 @@ def _join_state(a, b):
                 out[k] = ANY
         else:
             out[k] = va.join(vb)
+            # two paths that each established one (different) key of the same dictionary: the join keeps "one of the two is present"
+            if "dict" in va.types and "dict" in vb.types:
+                ea, eb = va.keys - vb.keys, vb.keys - va.keys
+                if len(ea) == 1 and len(eb) == 1:
+                    extra = dict(out.get("$either_new") or {})
+                    extra[k] = ea | eb
+                    out["$either_new"] = extra
+    if out.get("$either_new"):
+        cur_e = dict(out.get("$either") or ())
+        cur_e.update(out["$either_new"])
+        out["$either"] = tuple(sorted(cur_e.items(), key=lambda kv: kv[0]))
+    out.pop("$either_new", None)
     return out
 
 
@@ -315,8 +367,23 @@ class _Run(object):
                 for (e, o) in state.get("$caught", frozenset()) or frozenset([(ANYEXC, self.origin(node, "re-raise"))]):
                     self.raises.append((e, o))
             else:
-                name = self.exc_name(exc, state, node)
-                self.raises.append((name, self.origin(node, "explicit raise")))
+                names = None
+                if isinstance(exc, ast.Name):
+                    # `e = SomeError(...)` on every path, then `raise e`: the classes of the instances that reach the statement
+                    from . import prov as _prov
+                    alts = _prov.value_alts(_prov.origin(self.g, node, exc))
+                    got = []
+                    for a in alts:
+                        nm = a[1][1] if a[0] == "call" and a[1][0] == "global" else None
+                        cls_ = nm.split(".")[-1] if isinstance(nm, str) else None
+                        if cls_ and (cls_ in PARENT or cls_ in _EXTRA_PARENTS):
+                            got.append(cls_)
+                        else:
+                            got = None
+                            break
+                    names = got
+                for name in (names or [self.exc_name(exc, state, node)]):
+                    self.raises.append((name, self.origin(node, "explicit raise")))
         elif k == "test":
             self.ev(node.ast, state, node)
         elif k == "iter":
@@ -451,6 +518,12 @@ class _Run(object):
             return txt
         if last in PARENT:
             return last
+        if last in _EXTRA_PARENTS:
+            return last
+        import builtins
+        k = getattr(builtins, last, None)
+        if isinstance(k, type) and issubclass(k, BaseException):
+            return last
         if isinstance(e, ast.Name) and e.id in state and state[e.id].cls == "exception":
             return ANYEXC
         return ANYEXC
@@ -458,6 +531,8 @@ class _Run(object):
     def drop_alias(self, st, name):
         for kk in [kk for kk in st if kk.startswith(name + "[")]:
             del st[kk]
+        if st.get("$either"):
+            st["$either"] = tuple(kv for kv in st["$either"] if kv[0] != name)
         al = st.get("$alias") or {}
         if al:
             st["$alias"] = dict((k, v) for k, v in al.items() if k != name and name not in v[1])
@@ -544,6 +619,38 @@ class _Run(object):
                     al = dict(st.get("$alias") or {})
                     al[t.id] = (value_expr, names)
                     st["$alias"] = al
+            if isinstance(value_expr, ast.Call) and not value_expr.keywords and value_expr.args and \
+                    all(isinstance(x, ast.Name) for x in value_expr.args):
+                # `flag = predicate(x)` where the package function is one `return <test over its parameters>`: the flag stands for
+                # that test on x (narrowing on the flag narrows x)
+                try:
+                    r_ = self.prog.resolve_call(self.fi, value_expr)
+                except Exception:
+                    r_ = None
+                node_ = getattr(r_, "node", None)
+                if isinstance(node_, ast.FunctionDef) and not getattr(r_, "cls", None):
+                    body_ = [b for b in node_.body if not (isinstance(b, ast.Expr) and isinstance(b.value, ast.Constant))]
+                    params_ = [x.arg for x in node_.args.args]
+                    if len(body_) == 1 and isinstance(body_[0], ast.Return) and isinstance(body_[0].value, (ast.Compare, ast.BoolOp, ast.UnaryOp)) and \
+                            len(params_) == len(value_expr.args) and not (node_.args.vararg or node_.args.kwarg or node_.args.kwonlyargs):
+                        mp_ = dict(zip(params_, [x.id for x in value_expr.args]))
+                        used_ = set(n.id for n in ast.walk(body_[0].value) if isinstance(n, ast.Name))
+                        import builtins as _bi
+                        if all(u in mp_ or hasattr(_bi, u) for u in used_):
+                            import copy as _copy
+
+                            class _Sub(ast.NodeTransformer):
+                                def visit_Name(self_, nd):
+                                    return ast.copy_location(ast.Name(id=mp_.get(nd.id, nd.id), ctx=nd.ctx), nd)
+                            cache_ = self.an.__dict__.setdefault("_pred_alias", {})
+                            if id(value_expr) not in cache_:       # (one stable object per call site: states are compared by identity)
+                                cache_[id(value_expr)] = (_Sub().visit(_copy.deepcopy(body_[0].value)), value_expr)
+                            test_ = cache_[id(value_expr)][0]
+                            names = frozenset(n.id for n in ast.walk(test_) if isinstance(n, ast.Name))
+                            if t.id not in names:
+                                al = dict(st.get("$alias") or {})
+                                al[t.id] = (test_, names)
+                                st["$alias"] = al
             if isinstance(value_expr, ast.Call) and getattr(self, "_last_call", None) is not None \
                     and self._last_call[0] is value_expr:
                 summ, amap = self._last_call[1], self._last_call[2]
@@ -634,7 +741,25 @@ class _Run(object):
                     if cur is None:
                         return None
                 return cur
-            return st      # disjunction of outcomes: no refinement
+            # disjunction of outcomes: no refinement - except "one of these keys is present" (`"a" in d or "b" in d`), kept as a
+            # fact that a later failed membership test of one key turns into the presence of the other
+            if not is_and and pol:
+                names, keys_ = set(), set()
+                for v in test.values:
+                    if isinstance(v, ast.Compare) and len(v.ops) == 1 and isinstance(v.ops[0], ast.In) and isinstance(v.left, ast.Constant) and \
+                            isinstance(v.left.value, str) and isinstance(v.comparators[0], ast.Name):
+                        names.add(v.comparators[0].id)
+                        keys_.add(v.left.value)
+                    else:
+                        names = None
+                        break
+                if names and len(names) == 1:
+                    st2 = dict(st)
+                    cur_e = dict(st.get("$either") or ())
+                    cur_e[list(names)[0]] = frozenset(keys_)
+                    st2["$either"] = tuple(sorted(cur_e.items(), key=lambda kv: kv[0]))
+                    return st2
+            return st
         if isinstance(test, ast.Name):
             st2 = st
             al = (st.get("$alias") or {}).get(test.id)
@@ -749,6 +874,20 @@ class _Run(object):
                         nv = AV(nv.types, (nv.keys | frozenset([left.value])) if "dict" in nv.types else (), True, nv.cls)
                     st2 = dict(st)
                     st2[right.id] = nv
+                    return st2
+                if isinstance(left.value, str) and left.value in v.keys and v.types <= frozenset(["dict"]):
+                    return None          # the key is known to be present: this outcome of the test is infeasible
+                either = dict(st.get("$either") or ())
+                if right.id in either and left.value in either[right.id]:
+                    # one of the keys was known present and this one is absent: with one candidate left, that one is present
+                    rest = either[right.id] - frozenset([left.value])
+                    st2 = dict(st)
+                    if len(rest) == 1 and "dict" in v.types:
+                        st2[right.id] = AV(v.types, v.keys | rest, True, v.cls, v.truthy)
+                        del either[right.id]
+                    elif rest:
+                        either[right.id] = rest
+                    st2["$either"] = tuple(sorted(either.items(), key=lambda kv: kv[0]))
                     return st2
                 return st
             if isinstance(op, (ast.Eq, ast.NotEq)) and isinstance(left, ast.Call) and dump(left.func) == "len" \
@@ -1229,6 +1368,16 @@ class _Run(object):
                     pass
             tag = name if name in ("list", "tuple", "set", "frozenset", "dict") else ("list" if name == "sorted" else "obj")
             return AV([tag], nonempty=bool(a0 is not None and a0.nonempty), cls="generator" if tag == "obj" else None)
+        if name == "map" and len(e.args) == 2 and isinstance(e.args[0], ast.Name) and e.args[0].id in ("str", "repr", "bool", "type", "id") \
+                and not e.keywords and len(argv) == 2:
+            # map(str, X): lazy, and its function is one of the total builtins; X must be iterable
+            a1 = argv[1]
+            bad = a1.types - CONTAINERS - frozenset(["obj"])
+            if bad:
+                self.raise_("TypeError", node, "map() over %s" % "|".join(sorted(bad)))
+            if "obj" in a1.types and a1.cls != "generator":
+                self.raise_(ANYEXC, node, "map() over an arbitrary object")
+            return AV(["obj"], cls="generator")
         if name in ("min", "max", "sum", "abs", "round", "range"):
             for a in argv:
                 if not a.types <= NUM:
